@@ -22,6 +22,7 @@ mod ciphers;
 mod common;
 mod logins;
 mod selftest;
+mod wsearch;
 
 use mc::report::Tier;
 use std::path::PathBuf;
@@ -54,6 +55,7 @@ fn main() {
             c19::write_transcript(tier, seed, &args[3]);
         }
         "witness-search" => c03_extra::witness_search(0),
+        "witness-search-limb" => wsearch::run(),
         "selftest" => {
             if args.len() < 4 {
                 usage();
@@ -75,7 +77,21 @@ fn main() {
             let id = args[2].clone();
             let code = match mc::util::catch(move || run_check(&id, tier, seed)) {
                 Ok(c) => c,
-                Err(m) => mc::util::machinery_error(&format!("the harness itself panicked while checking {}: {m}", args[2])),
+                Err(m) => match mc::util::library_panic_location(&m) {
+                    // a panic raised inside the library that no pass of the check expected or caught: no property
+                    // allows a crash on the calls the checks make, so this is a verdict, not a harness problem
+                    Some(loc) => {
+                        let report = mc::report::Report::new(&args[2], tier, seed, "model_checking");
+                        report.violation(mc::report::Violation {
+                            signature: format!("{}|uncaught-library-panic|{}", args[2], loc),
+                            scenario: "uncaught-library-panic".into(),
+                            replay: serde_json::json!({"rerun": format!("./check.sh {} {}", args[2], tier.name()), "panic_location": loc}),
+                            detail: serde_json::json!({"message": m, "location": loc, "note": "the library panicked in a pass that does not expect panics; the run stopped there, so the coverage counters of this run are empty"}),
+                        });
+                        report.finish()
+                    }
+                    None => mc::util::machinery_error(&format!("the harness itself panicked while checking {}: {m}", args[2])),
+                },
             };
             std::process::exit(code);
         }
